@@ -378,7 +378,7 @@ def obligations(tier, seed):
     for cmd in ("eval", "console", "pinauth", "printpin", "resource", "none"):
         for hn in ([-1, 1, 3] if quick else [-1, 0, 1, 2, 3, 4]):
             for secret in ("right", "wrong", "absent"):
-                for ck in ("absent", "valid-hash", "wrong-hash", "malformed") + (("hash-prefix", "hash-junk") if secret == "right" and hn in (1, 3) else ()):
+                for ck in ("absent", "valid-hash", "wrong-hash", "malformed") + (("hash-prefix", "hash-junk") if secret == "right" and (hn == 1 if quick else hn in (1, 3)) and (cmd in ("eval", "pinauth", "console") or not quick) else ()):
                     out.append({"name": f"debugger[{cmd},host_len={hn},secret={secret},cookie={ck}]", "body": "body_debugger",
                                 "params": {"cmd": cmd, "hn": hn, "secret": secret, "cookie_kind": ck},
                                 "opts": {"budget_s": 1500, "ctx": {"max_cp": 0x7F, "bv_ints": True, "max_digits": 12}},
